@@ -437,6 +437,8 @@ class Interp:
                     return o is not None
                 return NOT_HANDLED
             o = self.eval(fn, S[n['obj']], env)
+            if isinstance(o, tuple) and len(o) == 2 and o[0] == 'ptr':
+                o = o[1]                          # it->member(): the iterator's operator-> yields a pointer to the element
             if isinstance(o, (bytes, bytearray)):
                 args = n.get('args', [])
                 if last in ('size', 'length'):
@@ -577,7 +579,7 @@ class Interp:
                     tgt[1].append(self.eval(fn, S[n['args'][1]], env))
                 return tgt                               # *it, ++it, it++ are the iterator itself
             return NOT_HANDLED
-        if k == 'CallExpr' and cs in ('std::begin', 'std::end', 'std::cbegin', 'std::cend', 'std::size', 'std::ssize', 'std::empty', 'std::next') and n.get('args'):
+        if k == 'CallExpr' and cs in ('std::begin', 'std::end', 'std::cbegin', 'std::cend', 'std::size', 'std::ssize', 'std::empty', 'std::next', 'std::prev') and n.get('args'):
             o = self.eval(fn, S[n['args'][0]], env)
             if isinstance(o, (bytes, bytearray)) and cs in ('std::begin', 'std::end', 'std::cbegin', 'std::cend'):
                 snaps = self.__dict__.setdefault('_strsnaps', {})
@@ -593,8 +595,12 @@ class Interp:
                     snap = (set(o), self.set_order(o))
                     snaps[id(o)] = snap
                 return ('it', snap[1], 0 if 'begin' in cs else len(snap[1]))
-            if cs == 'std::next' and isinstance(o, tuple) and o[0] == 'it':
-                return ('it', o[1], o[2] + 1)
+            if cs in ('std::next', 'std::prev') and isinstance(o, tuple) and o[0] == 'it':
+                d_ = self.eval(fn, S[n['args'][1]], env) if len(n['args']) > 1 else 1
+                p_ = o[2] + (d_ if cs == 'std::next' else -d_)
+                if not (0 <= p_ <= len(o[1])):
+                    raise OutOfFragment('%s moves an iterator to position %d of a sequence of length %d (undefined behaviour) at %s' % (cs, p_, len(o[1]), fn.loc(n)))
+                return ('it', o[1], p_)
             if isinstance(o, (bytes, bytearray, dict, set)) and not isinstance(o, Obj) and cs in ('std::size', 'std::ssize', 'std::empty'):
                 return len(o) == 0 if cs == 'std::empty' else len(o)
             if isinstance(o, dict) and not isinstance(o, Obj) and cs in ('std::begin', 'std::end', 'std::cbegin', 'std::cend'):
